@@ -195,7 +195,11 @@ let vec_machine (rational : bool) : machine =
      | "xaddsv" | "xsubsv" | "xsetsv" | "xmaddsv" ->
        let r = reg (a 1) and s = reg (a (if c = "xmaddsv" then 3 else 2)) in
        let nodup (v : Model.svec) = let ix = List.map (fun (i, _) -> int_of_nat i) v in List.length (List.sort_uniq compare ix) = List.length ix in
-       guard (in_dim sv.(s) (xdim x.(r)) && ((c <> "xsetsv" && c <> "xmaddsv") || nodup sv.(s))) (fun () ->
+       let indexed = c <> "xmaddsv" || not x.(r).Model.ss_setup ||
+                     List.for_all (fun i -> is_zero (Model.dv_get x.(r).Model.ss_val (n_of_int i)) ||
+                                            List.exists (fun k -> int_of_nat k = i) x.(r).Model.ss_idx)
+                       (List.init (xdim x.(r)) (fun i -> i)) in
+       guard (in_dim sv.(s) (xdim x.(r)) && ((c <> "xsetsv" && c <> "xmaddsv") || nodup sv.(s)) && indexed) (fun () ->
            x.(r) <- (match c with
                | "xaddsv" -> Model.ss_add_sv eps sv.(s) x.(r)
                | "xsubsv" -> Model.ss_sub_sv eps sv.(s) x.(r)
@@ -247,6 +251,11 @@ let vset_machine (nscal : int) : machine =
        let v = Model.sv_assign (entries es) in
        let (s', k) = Model.svs_add d0 s (List.map q_of_tok sc, v) in
        st := s'; ret := "key:" ^ zs k
+     | "addself", [] ->
+       let elems = List.map snd (Model.ds_abs d0 s) in
+       let s1 = Model.svs_ensure d0 s (zi (List.length elems)) in
+       let (s2, ks) = List.fold_left (fun (st, ks) e -> let (st', k) = Model.ds_add st e in (st', k :: ks)) (s1, []) elems in
+       st := s2; ret := "keys:" ^ clist zs (List.rev ks)
      | "add2", n :: es ->
        let n = int_of_string n in
        if not (has n) then ret := "skip"
